@@ -141,6 +141,7 @@ package tensor
 //@   props C02 C04 C13 C16
 //@   mode rank ap.shape, ap.strides
 //@   config maxrank_quick 3
+//@   config maxrank_thorough 4
 //@   let n = len(ap.shape)
 //@   let sh = ap.shape
 //@   requires [dims] forall i :: 0 <= i && i < n ==> ap.shape[i] >= 1 && ap.strides[i] >= 0
@@ -172,6 +173,7 @@ package tensor
 //@ func tensor.Shape.S
 //@   props C13 C02
 //@   mode rank s
+//@   config maxrank_thorough 4
 //@   let n = len(s)
 //@   requires [dims] forall i :: 0 <= i && i < n ==> s[i] >= 1
 //@   requires [scalarShape] len(scalarShape) == 0
